@@ -13,7 +13,7 @@ func template(r *vh.RNG) *Scenario {
 		scn.Mailbox = "GlobalOrderedLockFree"
 	}
 	tell := func(t, n int) Label { return Label{K: "tell", T: t, N: n} }
-	switch r.Intn(5) {
+	switch r.Intn(6) {
 	case 0:
 		// all-for-one: the root restarts ALL its children when A (token 1) fails; B (token 2) is healthy, has a child
 		// (token 3) and traffic in flight while it waits for that child during its restart
@@ -55,6 +55,19 @@ func template(r *vh.RNG) *Scenario {
 			{Victim: "resume"},
 		}
 		scn.Exts = []Label{{K: "spawn", T: 0, R: 0}, tell(1, 0), {K: "term", T: 1, G: r.Bool()}, tell(1, 1), tell(2, 0)}
+	case 5:
+		// a child spawned from the OnTerminated(child) handler of a parent that is terminating (its children were already
+		// told to stop) or restarting: the new child must not make the parent wait for ever
+		scn.Roles = []Role{
+			{Victim: "resume", Sup: []string{dirs3[r.Intn(3)]}, Rules: []Rule{{On: "L", N: -1, Inst: -1, Do: []Action{{K: "spawn", T: 1, R: 1}}},
+				{On: "TO", N: 1, Inst: -1, Do: []Action{{K: "spawn", T: 2, R: 2}, {K: "tell", T: 2, N: 1}}}, {On: "P", N: 0, Inst: 0, Do: []Action{{K: "panic"}}}}},
+			{Victim: "resume"},
+			{Victim: "resume", Rules: []Rule{{On: "P", N: 1, Inst: -1, Do: []Action{{K: "reply", N: 2}}}}},
+		}
+		scn.Exts = []Label{{K: "spawn", T: 0, R: 0}, tell(1, 0), {K: "term", T: 0, G: r.Bool()}, tell(0, 1), tell(2, 0)}
+		if r.Bool() {
+			scn.Exts[2] = Label{K: "term", T: 1, G: false} // the child goes first, the parent is still alive
+		}
 	default:
 		// watch requests racing with a termination: two observers, one of them the parent
 		scn.Roles = []Role{
